@@ -479,7 +479,11 @@ Proof. vm_compute. split; reflexivity. Qed.
    one CR in front of it removed, trimmed, empty lines skipped and counted); step_spec: what a line does to the decoded
    map; xattr_file_spec: their fold.  For EVERY file and EVERY cutting into windows the run returns and what it
    returns -- verdict, error code and line number of a refusal, the decoded map (path blocks, keys, values, list
-   order) -- is the specification's answer ... *)
+   order) -- is the specification's answer ...
+   (Independent audit 4, finding 3: lines_spec / step_spec are built from the model's own helper functions, so these
+   two theorems show independence of windows, ids and resources, not the FORMAT; the independent statement of the
+   format and its equivalence with this specification are xattr_file_spec_plain_equiv / xattr_open_is_plain at the
+   end of this file.) *)
 From SqfsV Require Import C07.XattrFileSpec.
 Theorem xattr_open_is_spec : forall win s, exists r, xattr_open_map_file win s = Ok r /\ xattr_file_spec s = Ok (erase r).
 Proof. exact xattr_open_is_spec_l. Qed.
@@ -505,4 +509,142 @@ Example ex_file_spec :
                                                ([117; 115; 101; 114; 46; 116], [97; 65; 34; 113])])])
   /\ xattr_file_spec [10; 32; 13; 10; 120; 10] = Ok (XS_refused e_notkv 3)
   /\ lines_spec 20 [32; 97; 61; 98; 9; 13; 10; 10; 120] 1 = Ok (Some [97; 61; 98; 0], [10; 120], 1).
+Proof. vm_compute. repeat split. Qed.
+
+(* ======================================================================================
+   Audit 4, finding 3 (session 3, builder H3): an INDEPENDENT specification of the xattr map file.
+
+   XattrFileSpec.lines_spec / step_spec above are assembled from the model's own helpers (trim_flags, cr_cut,
+   strncmp_eq, cstr_at, strchr_go, bset, bfrom, xattr_decode): xattr_open_is_spec / get_line_is_spec establish
+   independence of stream windows, allocator ids and the resource list - not the format.  C07/XattrPlain.v states
+   the format over plain lists, with no definition of the text / number / xattr models (the one import is C18's
+   SPECIFICATION canon_spec):
+     lines_plain   split at LF; one CR directly in front of the LF dropped; what follows a NUL is invisible; leading
+                   and trailing isspace bytes (HT LF VT FF CR SPACE) stripped; empty lines skipped; every piece
+                   between LFs counts in the numbering
+     step_plain    a line starting with the literal 8 bytes  # file:   opens a pattern (path = rest, canon_spec,
+                   refused 222 on a dot-dot component); else split at the FIRST '=' (221 if no pattern yet, 109 if
+                   the value is malformed); else a line starting with '#' is a comment; else 223
+     decode_plain  0x/0X + hex pairs, 0s/0S + base64 groups with padding, else text with optional quotes,
+                   backslash-backslash, backslash-quote and backslash + 1..3 octal digits
+   and XattrPlainEquiv proves the model's specification equal to it for EVERY input.  The behaviours a reader of
+   the format would not expect are kept in the plain specification explicitly, (O1)..(O7) in the header of
+   XattrPlain.v; each has an Example below.
+   ====================================================================================== *)
+From SqfsV Require Import C07.XattrPlain C07.XattrPlainLines C07.XattrPlainDecode C07.XattrPlainEquiv.
+
+(* [plain_view] reads a pattern's path block (result of the in-place canonicalisation, NUL, stale tail) as the C
+   string it is; everything else is compared as it stands *)
+Theorem xattr_file_spec_plain_equiv : forall s, exists x, xattr_file_spec s = Ok x /\ plain_view x = xattr_file_plain s.
+Proof. exact xattr_file_spec_plain_equiv_l. Qed.
+Print Assumptions xattr_file_spec_plain_equiv.
+
+(* ... hence, end to end: for every file and every cutting into windows the run of the model of
+   xattr_open_map_file returns, and verdict, error code and line of a refusal, and the decoded map are the plain
+   specification's *)
+Theorem xattr_open_is_plain : forall win s,
+  exists r, xattr_open_map_file win s = Ok r /\ plain_view (erase r) = xattr_file_plain s.
+Proof. exact xattr_open_is_plain_l. Qed.
+Print Assumptions xattr_open_is_plain.
+
+(* istream_get_line (LTRIM | RTRIM | SKIP_EMPTY) alone: the line handed out, the number reported for it and the
+   stream behind it are the head and the tail of the plain list *)
+Theorem get_line_is_plain : forall win t s ln t' o s' ln', get_line win t s ln = Ok (t', o, s', ln') ->
+  match number_lines ln (split_lf s) with
+  | [] => content o = None
+  | (k, x) :: more => content o = Some (x ++ [0]) /\ ln' = k /\ number_lines (k + 1) (split_lf s') = more
+  end.
+Proof. exact get_line_is_plain_l. Qed.
+Print Assumptions get_line_is_plain.
+
+(* the lines of the plain specification: never empty, no NUL, no space at either end *)
+Theorem lines_plain_are_trimmed : forall s k x, In (k, x) (lines_plain s) ->
+  x <> [] /\ Forall nz x /\ (forall c r, x = c :: r -> isspace_plain c = false) /\
+  (forall c r, rev x = c :: r -> isspace_plain c = false).
+Proof. exact lines_plain_shape. Qed.
+Print Assumptions lines_plain_are_trimmed.
+
+(* the value decoder of filemap_xattr.c (decode + hex_decode + base64_decode, with all buffer arithmetic) computes
+   decode_plain, for every value *)
+Theorem xattr_decode_is_plain : forall v, Forall nz v ->
+  xattr_decode (v ++ [0]) = match decode_plain v with Some d => Ok d | None => Err e_encoding end.
+Proof. exact xattr_decode_plain. Qed.
+Print Assumptions xattr_decode_is_plain.
+
+(* the in-place trims of get_line.c are the plain strips *)
+Theorem trim_flags_is_strip : forall t tl, Forall nz t ->
+  exists m, trim_flags (t ++ 0 :: tl) = Ok (m, N.of_nat (length (strip t))) /\
+            resize m (S (length (strip t))) = strip t ++ [0].
+Proof. exact trim_flags_spec. Qed.
+Print Assumptions trim_flags_is_strip.
+
+(* (O5) the CR rule of istream_get_line cannot be observed under RTRIM: CR is a space *)
+Theorem cr_rule_unobservable : forall l, line_text (l, true) = line_text (l, false).
+Proof. exact cr_rule_absorbed. Qed.
+Print Assumptions cr_rule_unobservable.
+
+(* the error codes of the plain specification are the model's *)
+Example ex_plain_codes : pe_nofile = e_nofile /\ pe_badpath = e_badpath /\ pe_notkv = e_notkv /\ pe_encoding = e_encoding.
+Proof. exact plain_codes. Qed.
+
+(* ---- a file that exercises every clause: CR LF line ends, a blank first line, an indented comment, a path that
+   needs canonicalising, hex, base64 with two / one / no pad, a quoted value with an octal escape, an escaped
+   backslash, an escaped quote and a two-digit octal, an unquoted value with a backslash that stays, an empty value,
+   (O1) a '#' line with '=', (O2) an odd hex tail, (O6) a NUL hiding the rest of a line, an empty line, a second
+   pattern, a last line without LF whose value contains '='.
+   # file: /a//./b/ | user.hex=0x4142 | user.b1=0sQQ== | user.b2=0sQUI= | user.b3=0sQUJD | user.q=QUOTE a \101 \\ \QUOTE \12 x QUOTE |
+   user.plain=p q\8 | user.empty= | #odd=0xabz | user.nul=v NUL hidden= | | # file: c | k=v=w *)
+Definition xf_every : list N := [13; 10; 32; 32; 35; 32; 97; 32; 99; 111; 109; 109; 101; 110; 116; 13; 10; 35; 32; 102; 105; 108; 101; 58; 32; 47; 97; 47; 47; 46; 47; 98; 47; 10; 117; 115; 101; 114; 46; 104; 101; 120; 61; 48; 120; 52; 49; 52; 50; 10; 9; 117; 115; 101; 114; 46; 98; 49; 61; 48; 115; 81; 81; 61; 61; 32; 32; 10; 117; 115; 101; 114; 46; 98; 50; 61; 48; 115; 81; 85; 73; 61; 10; 117; 115; 101; 114; 46; 98; 51; 61; 48; 115; 81; 85; 74; 68; 10; 117; 115; 101; 114; 46; 113; 61; 34; 97; 92; 49; 48; 49; 92; 92; 92; 34; 92; 49; 50; 120; 34; 10; 117; 115; 101; 114; 46; 112; 108; 97; 105; 110; 61; 112; 32; 113; 92; 56; 10; 117; 115; 101; 114; 46; 101; 109; 112; 116; 121; 61; 10; 35; 111; 100; 100; 61; 48; 120; 97; 98; 122; 10; 117; 115; 101; 114; 46; 110; 117; 108; 61; 118; 0; 104; 105; 100; 100; 101; 110; 61; 10; 10; 35; 32; 102; 105; 108; 101; 58; 32; 99; 10; 107; 61; 118; 61; 119].
+
+Example ex_plain_every_clause :
+  map fst (lines_plain xf_every) = [2; 3; 4; 5; 6; 7; 8; 9; 10; 11; 12; 14; 15] /\
+  xattr_file_plain xf_every
+  = XP_map [([99], [([107], [118; 61; 119])]);
+            ([97; 47; 98],
+             [([117; 115; 101; 114; 46; 110; 117; 108], [118]);
+              ([35; 111; 100; 100], [171]);
+              ([117; 115; 101; 114; 46; 101; 109; 112; 116; 121], []);
+              ([117; 115; 101; 114; 46; 112; 108; 97; 105; 110], [112; 32; 113; 92; 56]);
+              ([117; 115; 101; 114; 46; 113], [97; 65; 92; 34; 10; 120]);
+              ([117; 115; 101; 114; 46; 98; 51], [65; 66; 67]);
+              ([117; 115; 101; 114; 46; 98; 50], [65; 66]);
+              ([117; 115; 101; 114; 46; 98; 49], [65]);
+              ([117; 115; 101; 114; 46; 104; 101; 120], [65; 66])])] /\
+  (* the model, computed, agrees (as xattr_open_is_plain says it must), with one byte per window and with all at once *)
+  (match xattr_open_map_file win_one xf_every with Ok r => plain_view (erase r) | _ => XP_refused 0 0 end) = xattr_file_plain xf_every /\
+  (match xattr_open_map_file win_all xf_every with Ok r => plain_view (erase r) | _ => XP_refused 0 0 end) = xattr_file_plain xf_every.
+Proof. vm_compute. repeat split. Qed.
+
+(* the four refusals, with the line number reported: no pattern yet (line 1); a dot-dot component (line 2, behind an
+   empty line); neither key=value nor comment (line 4, behind two empty lines); a base64 tail of three characters *)
+Example ex_plain_refusals :
+  xattr_file_plain [107; 61; 118; 10] = XP_refused 221 1 /\
+  xattr_file_plain [10; 35; 32; 102; 105; 108; 101; 58; 32; 97; 47; 46; 46; 10] = XP_refused 222 2 /\
+  xattr_file_plain [35; 32; 102; 105; 108; 101; 58; 32; 97; 10; 10; 10; 120; 121; 10] = XP_refused 223 4 /\
+  xattr_file_plain [35; 32; 102; 105; 108; 101; 58; 32; 97; 10; 107; 61; 48; 115; 81; 85; 73; 10] = XP_refused 109 2.
+Proof. vm_compute. repeat split. Qed.
+
+(* (O1)..(O4), (O7): the behaviours kept visibly in the plain specification, one by one (values as byte lists;
+   34 = QUOTE, 92 = BACKSLASH) *)
+Example ex_plain_observed_behaviours :
+  (* O1: '=' is tested before '#' *)
+  step_plain [35; 97; 61; 98] [([120], [])] = ([([120], [([35; 97], [98])])], None) /\
+  step_plain [35; 97; 32; 98] [([120], [])] = ([([120], [])], None) /\
+  (* O2: 0xabz = 0xab: the odd last character is dropped unseen; 0xazb is refused *)
+  decode_plain [48; 120; 97; 98; 122] = Some [171] /\ decode_plain [48; 120; 97; 122; 98] = None /\
+  (* O3: '-' is 63, '_' pads; an unpadded tail is refused; a padded group must be the last *)
+  decode_plain [48; 115; 45; 45; 95; 95] = Some [255] /\ decode_plain [48; 115; 81; 85; 73] = None /\
+  decode_plain [48; 115; 81; 81; 61; 61; 81; 85; 74; 68] = None /\
+  (* O4: QUOTE a b BACKSLASH QUOTE = a b QUOTE; a b BACKSLASH (unquoted) keeps the backslash; BACKSLASH 8 stays; BACKSLASH 777 = 255 *)
+  decode_plain [34; 97; 98; 92; 34] = Some [97; 98; 34] /\ decode_plain [97; 98; 92] = Some [97; 98; 92] /\
+  decode_plain [92; 56] = Some [92; 56] /\ decode_plain [92; 55; 55; 55] = Some [255] /\
+  (* O7: a lone QUOTE, and a QUOTE only at the front, are ordinary bytes *)
+  decode_plain [34] = Some [34] /\ decode_plain [34; 97] = Some [34; 97] /\ decode_plain [34; 34] = Some [].
+Proof. vm_compute. repeat split. Qed.
+
+(* the independent decoder inverts getfattr's encoders as well (decode_inverse + xattr_decode_is_plain; the
+   encodings contain no NUL because their alphabets do not) - on the value of ex_decode_inverse *)
+Example ex_plain_decode_inverse :
+  decode_plain (hex_enc [0; 255; 65]) = Some [0; 255; 65] /\ decode_plain (b64_enc [65; 66]) = Some [65; 66] /\
+  decode_plain (text_enc ex_oct [0; 34; 92; 10; 255; 65]) = Some [0; 34; 92; 10; 255; 65].
 Proof. vm_compute. repeat split. Qed.
